@@ -38,7 +38,7 @@ SKIP_ACC = ('accept',)
 def build(tier, seed):
     work = os.path.join(BUILD, 'gen', 'C14'); os.makedirs(work, exist_ok=True)
     recs = F.catalogue(work)
-    facs = [f for f in F.factories(recs) if f['id'] not in ('make_literal.1', 'make_token', 'make_annotation')]
+    facs = [f for f in F.factories(recs, F.FACTORY_CLASSES + ['ipr::impl::Scope']) if f['id'] not in ('make_literal.1', 'make_token', 'make_annotation')]      # + declarations entered into a scope
     head = F.LIB % (ipv.REPO, VERIF) + HELP + 'namespace drv {\n'
     items = []
     for f in facs:
@@ -113,7 +113,7 @@ def build(tier, seed):
     # primitives and sequence implementations (hand-written driver)
     if '-I' + os.path.join(VERIF, 'drivers') not in ipv.CLANG_ARGS:
         ipv.CLANG_ARGS.append('-I' + os.path.join(VERIF, 'drivers'))
-    PR = ['check', 'ref', 'optional', 'ref_sequence', 'obj_list', 'obj_sequence', 'empty_sequence', 'singleton_ref', 'singleton_obj', 'typed_sequence']
+    PR = ['capture_name', 'fundecl_definition_form', 'check', 'ref', 'optional', 'ref_sequence', 'obj_list', 'obj_sequence', 'empty_sequence', 'singleton_ref', 'singleton_obj', 'typed_sequence']
     pn = {'p_' + k: 'drv::p_' + k for k in PR}
     pu = Unit('primitives', 'drivers/access.cxx', roots=sorted(pn.values()), names=pn)
     def mkpgen(k):
@@ -135,7 +135,7 @@ def build(tier, seed):
     for k in PR:
         o = Ob('C14.prim.' + k, pu, None, 'h_p_' + k, k.replace('_', ' ') + ': null / empty / out-of-range refused with a logic error, otherwise exactly the datum; symbolic index against size()', kind='K1', replay='C14', timeout=600, flags=['--unwind', '12'], objbits=12)
         o.gen = mkpgen(k); obs.append(o)
-        if k == 'empty_sequence':
+        if k in ('empty_sequence', 'capture_name', 'fundecl_definition_form'):
             o.no_canary = True      # every index is out of range: the call never returns normally, which is the property; reaching it is witnessed by the EXC assertion inside __ipr_throw
     meta = dict(sweep_family='C14', functions_under_contract=sorted(set(f['cls'] + '::' + f['name'] for f, _, _ in items)) + sorted(pn.values()), factories=len(facs), factories_covered=len(obs) - len(PR),
                 accessor_calls_covered=nacc, not_covered=uncovered, driver_chunks=len(chunks),
